@@ -1,6 +1,7 @@
 package rules
 
 import (
+	"go/types"
 	"sort"
 	"strings"
 
@@ -404,6 +405,43 @@ func c19Siblings(c *Ctx, ms map[string]*fsmx.Machine) {
 			}
 		}
 		r.Check(good, "C19/R3", "from-dump:unmarshal-checked", "a dump that does not parse is refused", c.Pos(fn.Pos()), "MachineByState reachable without a successful Unmarshal")
+		// restoring is read-only on the dump: between decoding and handing the payload to the machine nothing rewrites the
+		// payload (derived lookups re-computed at load time would replace what a later writer — the reinit key update —
+		// stored in them)
+		wr := c19PayloadWriters(c)
+		mutated := ""
+		ssax.Instrs(fn, func(in ssa.Instruction) {
+			switch x := in.(type) {
+			case *ssa.Store:
+				if fa, ok := x.Addr.(*ssa.FieldAddr); ok && isPayloadType(fa.X.Type()) {
+					mutated = "a store to " + trimPath(ssax.Path(x.Addr)) + " at " + c.PosOf(in)
+				}
+			case *ssa.MapUpdate:
+				if strings.Contains(ssax.Path(x.Map), ".dump.Payload") {
+					mutated = "a map update of " + trimPath(ssax.Path(x.Map)) + " at " + c.PosOf(in)
+				}
+			case ssa.CallInstruction:
+				touches := false
+				for _, a := range x.Common().Args {
+					if strings.Contains(ssax.Path(a), ".dump.Payload") {
+						touches = true
+					}
+				}
+				if !touches {
+					return
+				}
+				if o := ssax.CalleeObj(x); o != nil && o.Name() == "WithSetup" {
+					return // installs the pointer, judged by the sibling rule
+				}
+				for _, callee := range c.calleesAt(x) {
+					if wr[callee] {
+						mutated = "a call of " + load.FuncName(callee) + ", which writes payload fields, at " + c.PosOf(in)
+					}
+				}
+			}
+		})
+		r.Check(mutated == "", "C19/R3", "from-dump:payload-read-only", "restoring a dump does not rewrite its payload", c.Pos(fn.Pos()),
+			mutated+": the restored round differs from the round that was dumped (dump → restore → dump is not a fixed point)")
 	}
 	if fn := c.Fn("C19/R3", "fsm/state_machines", "FSMInstance", "Do"); fn != nil {
 		// store i.dump.State = result.State must precede Marshal, under result != nil
@@ -425,6 +463,44 @@ func c19Siblings(c *Ctx, ms map[string]*fsmx.Machine) {
 			}
 		}
 		r.Check(ok, "C19/R3", "instance-do:state-before-marshal", "the dump returned by Do carries the state the machine ended in", c.Pos(fn.Pos()), "dump.Marshal() reachable without first storing result.State into dump.State")
+		// a dump that could not be produced must not be handed out with a nil error (the node would persist it): on the
+		// failure edge of Marshal the returned error is that failure, or an error known to be non-nil
+		for i, m := range marshals {
+			call := m.(ssa.CallInstruction)
+			okE := ssax.NilErrEdgesOfCall(fn, call)
+			bad := ""
+			if len(okE) == 0 {
+				bad = "the error of dump.Marshal() is not tested"
+			}
+			for _, e := range okE {
+				fail := e.From.Succs[1-e.Succ]
+				if len(fail.Instrs) == 0 {
+					continue
+				}
+				for _, ret := range ssax.Returns(fn) {
+					if ret.Block() == fn.Recover || len(ret.Results) == 0 {
+						continue
+					}
+					ev := ret.Results[len(ret.Results)-1]
+					for _, lf := range ssax.Leaves(ev, ret) {
+						if !(lf.At.Block() == fail || ssax.ReachableFrom(fn, fail.Instrs[0], lf.At, nil, nil)) {
+							continue
+						}
+						v := ssax.Resolve(lf.V)
+						if ssax.IsNilConst(v) {
+							bad = "nil is returned at " + c.PosOf(ret)
+							continue
+						}
+						if valueFlowsFrom(lf.V, call, ssax.ErrIndex(call)) || propagatesFreshError(v) {
+							continue
+						}
+						bad = "the error returned at " + c.PosOf(ret) + " is " + npath(lf.V) + ", which may be nil"
+					}
+				}
+			}
+			r.Check(bad == "", "C19/R3", sprintf("instance-do:marshal-failure-reported#%d", i+1), "when the dump cannot be encoded Do reports an error instead of handing out an empty dump", c.PosOf(m),
+				bad+": the node stores the empty dump of an accepted event, the round can never be restored and listing fails for every round")
+		}
 	}
 }
 
@@ -550,4 +626,80 @@ func nextOf(v ssa.Value) *ssa.Next {
 		}
 	}
 	return nil
+}
+
+
+// propagatesFreshError: v is a newly constructed error (fmt.Errorf / errors.New).
+func propagatesFreshError(v ssa.Value) bool {
+	call, ok := v.(*ssa.Call)
+	if !ok {
+		return false
+	}
+	id := ssax.FuncID(ssax.CalleeObj(call))
+	return id == "fmt.Errorf" || id == "errors.New"
+}
+
+
+// isPayloadType: *DumpedMachineStatePayload or one of the structures hanging off it.
+func isPayloadType(t types.Type) bool {
+	if pt, ok := t.Underlying().(*types.Pointer); ok {
+		t = pt.Elem()
+	}
+	nt, ok := t.(*types.Named)
+	if !ok || nt.Obj().Pkg() == nil || !strings.HasSuffix(nt.Obj().Pkg().Path(), "fsm/state_machines/internal") {
+		return false
+	}
+	_, isStruct := nt.Underlying().(*types.Struct)
+	return isStruct
+}
+
+// c19PayloadWriters: module functions that (transitively) store into fields or maps of the payload structures.
+func c19PayloadWriters(c *Ctx) map[*ssa.Function]bool {
+	direct := map[*ssa.Function]bool{}
+	for fn := range c.P.AllFuncs() {
+		if !load.InModule(fn) || c.isTestFunc(fn) {
+			continue
+		}
+		ssax.Instrs(fn, func(in ssa.Instruction) {
+			switch x := in.(type) {
+			case *ssa.Store:
+				if fa, ok := x.Addr.(*ssa.FieldAddr); ok && isPayloadType(fa.X.Type()) {
+					direct[fn] = true
+				}
+			case *ssa.MapUpdate:
+				m := x.Map
+				if ld, ok := m.(*ssa.UnOp); ok {
+					if fa, ok := ld.X.(*ssa.FieldAddr); ok && isPayloadType(fa.X.Type()) {
+						direct[fn] = true
+					}
+				}
+			}
+		})
+	}
+	out := map[*ssa.Function]bool{}
+	cg := c.P.CallGraph()
+	var visit func(f *ssa.Function, seen map[*ssa.Function]bool) bool
+	visit = func(f *ssa.Function, seen map[*ssa.Function]bool) bool {
+		if direct[f] {
+			return true
+		}
+		if seen[f] || !load.InModule(f) {
+			return false
+		}
+		seen[f] = true
+		if n := cg.Nodes[f]; n != nil {
+			for _, e := range n.Out {
+				if visit(e.Callee.Func, seen) {
+					return true
+				}
+			}
+		}
+		return false
+	}
+	for fn := range c.P.AllFuncs() {
+		if load.InModule(fn) && visit(fn, map[*ssa.Function]bool{}) {
+			out[fn] = true
+		}
+	}
+	return out
 }
